@@ -27,6 +27,7 @@ var (
 	fKnown    = flag.String("sim.known", "/verif/known_findings.json", "known findings file")
 	fVerbose  = flag.Bool("sim.v", false, "print event logs")
 	fLogs     = flag.String("sim.logdir", "", "write per-run event logs here (determinism self-test)")
+	fCheckReplay = flag.Bool("sim.checkreplay", false, "replay every recorded plan and compare event logs")
 )
 
 type ReplayFile struct {
@@ -270,6 +271,24 @@ func TestSim(t *testing.T) {
 		if len(out.Samples) < 3 && res.Stats.Nontrivial {
 			s, _ := json.Marshal(map[string]any{"run": run, "profile": p.Name, "plan": res.Recorded, "trace_tail": tail(res.Log, 12)})
 			out.Samples = append(out.Samples, s)
+		}
+		if *fCheckReplay && res.Harness == nil {
+			// replay fidelity self-test: the recorded plan must reproduce the exploration run exactly
+			rr := RunScenario(t, cloneScenario(sc), &res.Recorded, nil)
+			if rr.Digest != res.Digest {
+				d := "length"
+				for i := range res.Log {
+					if i >= len(rr.Log) || rr.Log[i] != res.Log[i] {
+						o := "<end>"
+						if i < len(rr.Log) {
+							o = rr.Log[i]
+						}
+						d = fmt.Sprintf("line %d: explore %q / replay %q", i, res.Log[i], o)
+						break
+					}
+				}
+				out.Harness = append(out.Harness, fmt.Sprintf("run %d: replay of the recorded plan diverges from the exploration run at %s", run, d))
+			}
 		}
 		if res.Harness != nil {
 			out.Harness = append(out.Harness, fmt.Sprintf("run %d: %v", run, res.Harness))
